@@ -91,7 +91,11 @@ func (t Translator) objFromArraiDict(v rel.Dict) (map[string]interface{}, error)
 		if err != nil {
 			return nil, err
 		}
-		maps[keydata.(string)] = valuedata
+		keystr, is := keydata.(string)
+		if !is {
+			return nil, errors.Errorf("FromArrai: dict key must be a string, not %v", key)
+		}
+		maps[keystr] = valuedata
 	}
 	return maps, nil
 }
